@@ -61,7 +61,7 @@ Proof.
            (walk_ok_utf8 fold_code_point cs Hw tries p Hp) E).
 Qed.
 
-(* ... and, for a pattern without backreferences and string sets, the reported match starts and ends at character
+(* ... and, for a pattern without \q{...} string sets, the reported match starts and ends at character
    boundaries (what slicing the haystack with the reported range needs) *)
 Theorem c06_match_on_char_boundaries_utf8 : forall unicode utf16 h cs fuel n ngroups tries p p0 e gs,
   utf8_chars (length h) h = Some cs -> simple n = true -> Utf8Valid.bnd cs p ->
@@ -70,9 +70,9 @@ Theorem c06_match_on_char_boundaries_utf8 : forall unicode utf16 h cs fuel n ngr
 Proof.
   intros unicode utf16 h cs fuel n ngroups tries p p0 e gs Hch Hs Hp E.
   destruct (utf8_chars_ok _ _ _ Hch) as [Hw Hcat]. subst h.
-  pose proof (text_ok_utf8 fold_code_point cs Hw unicode) as Ht. destruct Ht as (Hk1 & Hk5 & Hcp & Hb1 & Hb2 & Hst).
+  pose proof (text_ok_utf8 fold_code_point cs Hw unicode) as Ht. destruct Ht as (Hk0 & Hk1 & Hk5 & Hk4 & Hcp & Hb1 & Hb2 & Hst).
   eapply (search_boundaries (utf8_indexer fold_code_point) unicode utf16 (concat cs) (Utf8Valid.bnd cs) n Hk5); [|exact Hp|exact E].
-  exact (al_simple (utf8_indexer fold_code_point) unicode utf16 (concat cs) (Utf8Valid.bnd cs) Hk1 Hb1 n Hs).
+  exact (al_simple (utf8_indexer fold_code_point) unicode utf16 (concat cs) (Utf8Valid.bnd cs) Hk1 Hk4 Hb1 n Hs).
 Qed.
 
 (* Non-vacuity: a lookbehind over a two-byte character: (?<=é)a on "éa" matches 2..3. *)
